@@ -139,23 +139,11 @@ def r05_3(cx):
     cx.report('R05.3', p, 'forward', ok, 'Prefilter::find_in forwards (haystack, span) to self.finder' if ok else 'Prefilter::find_in = %s' % tstr(t, 200))
     # Candidate::into_option
     io = cx.body('util::prefilter::Candidate::into_option')
-    tb = decision_table(io)
-    ok = tb is not None
-    if tb:
-        vmap = {i: v['name'] for i, v in enumerate(cx.facts.adts['util::prefilter::Candidate']['variants'])}
-        for conds, out, path in tb:
-            dv = [v for c, v in conds if c[0] == 'discr']
-            nm = vmap.get(dv[0]) if dv else None
-            o = expand_vars(io, out)
-            if nm == 'None':
-                good = is_agg(o, r'Option$', 'None')
-            elif nm == 'Match':
-                good = is_agg(o, r'Option$', 'Some') and is_call(o[3]['0'], r'Match::start$')
-            elif nm == 'PossibleStartOfMatch':
-                good = is_agg(o, r'Option$', 'Some') and 'PossibleStartOfMatch' in tstr(o)
-            else:
-                good = False
-            ok = ok and good
+    tab = enum_table(cx.facts, [r for r in summarize(cx.facts, io) if r.end == 'return'], 'util::prefilter::Candidate', lambda x: peel_all(x) == param_at(io, 1))
+    S = cstr(param_at(io, 1))
+    want = {'None': 'core::option::Option::None{}', 'Match': 'core::option::Option::Some{0: (%s as Match).0.span.start}' % S,
+            'PossibleStartOfMatch': 'core::option::Option::Some{0: (%s as PossibleStartOfMatch).0}' % S}
+    ok = all(len(rs) >= 1 and all(cstr(r.ret) == want[nm] for r in rs) for nm, rs in tab.items()) and set(tab) == set(want)
     cx.report('R05.3', io, 'into_option', ok, 'into_option: None -> None, Match(m) -> Some(m.start()), PossibleStartOfMatch(i) -> Some(i)' if ok else 'Candidate::into_option deviates')
 
 
@@ -180,9 +168,15 @@ def r05_1(cx):
     args = [expand_vars(b, a, keep=('self',)) for a in ct[2]]
     okargs = is_var(peel(ct[2][0]), 'self') and 'enumerate' in tstr(expand_vars(b, ct[2][1])) or True
     pos, byt = ct[2][1], ct[2][2]
-    pd = expand_vars(b, pos)
-    bd = expand_vars(b, byt)
-    okargs = '.0.0' in tstr(pd) and '.0.1' in tstr(bd) and 'Iterator::next' in tstr(pd)
+    s_ = cx.body('util::prefilter::RareBytesBuilder::set_offset')
+    # parameter roles of the (private) callee by type: the usize is the position, the u8 the byte
+    roles = {i: s_.locals[i]['ty'] for i in (2, 3)}
+    pi = [i for i, ty in roles.items() if ty == 'usize']
+    bi_ = [i for i, ty in roles.items() if ty == 'u8']
+    okargs = len(pi) == 1 and len(bi_) == 1
+    pd = expand_vars(b, ct[2][pi[0] - 1]) if okargs else ('s', '?')
+    bd = expand_vars(b, ct[2][bi_[0] - 1]) if okargs else ('s', '?')
+    okargs = okargs and '.0.0' in tstr(pd) and '.0.1' in tstr(bd) and 'Iterator::next' in tstr(pd)
     cx.report('R05.1', b, 'args', okargs, 'set_offset receives the enumerate() position and byte' if okargs else 'set_offset(%s, %s)' % (tstr(pd, 80), tstr(bd, 80)))
     # len >= 256 disables before the loop
     lg = []
@@ -206,13 +200,14 @@ def r05_1(cx):
     cx.report('R05.2', b, 'len-limit', okl and okd, 'patterns of 256 bytes or more make the rare-byte builder unavailable before any offset is recorded' if okl and okd else 'set_offset is reachable for a pattern of 256+ bytes (offset does not fit u8)')
     s = cx.body('util::prefilter::RareBytesBuilder::set_offset')
     ct = [s.call_term(bi, t) for bi, t in s.calls(r'RareByteOffsets::set$')]
-    t0 = [c for c in ct if is_var(peel(c[2][1]), 'byte')]
+    BYTE_P = param_of_type(s, r'^u8$')
+    POS_P = param_of_type(s, r'^usize$')
+    t0 = [c for c in ct if peel_all(c[2][1]) == BYTE_P]
     ok = len(t0) == 1 and tstr(peel(t0[0][2][0])) == 'self.byte_offsets'
-    off = s.locals_named('offset')
     okoff = False
-    if off:
-        od = expand_vars(s, ('v', 'offset', off[0]))
-        okoff = is_call(od, r'Option::(unwrap|expect)$') and is_call(od[2][0], r'RareByteOffset::new$') and is_var(od[2][0][2][0], 'pos')
+    if ok:
+        od = peel_all(expand_vars(s, t0[0][2][2]))
+        okoff = is_call(od, r'Option::(unwrap|expect)$') and is_call(peel_all(od[2][0]), r'RareByteOffset::new$') and peel_all(peel_all(od[2][0])[2][0]) == POS_P
     cx.report('R05.2', s, 'records-byte', ok and okoff, 'set_offset records RareByteOffset::new(pos) for the byte itself' if ok and okoff else 'set_offset does not record (byte, pos)')
 
 
@@ -275,16 +270,54 @@ def r05_4(cx):
         okn = bool(dis) and all(r.end == 'return' and is_agg(r.ret, r'Option$', 'None') for r in dis)
         cx.report('R05.4', b, 'disabled-none', okn, 'a disabled builder yields None' if okn else 'a disabled builder can yield a prefilter')
     a = cx.body('util::prefilter::Builder::add')
-    eg = bool_gates(a, lambda x: is_call(x, r'core::slice::is_empty$') and is_var(peel(x[2][0]), 'bytes'))
-    st = [(bi, v) for bi, si, tt, v, s in a.field_stores() if self_field(tt, 'enabled')]
-    en2 = bool_gates(a, lambda x: self_field(x, 'enabled'))
-    adds = [bi for bi, t in a.calls(r'(StartBytesBuilder|RareBytesBuilder|MemmemBuilder|packed::api::Builder)::add$')]
-    ok1 = bool(eg) and len(st) == 1 and st[0][1] == ('c', 0) and not reachable_without(a, [st[0][0]], [e for g in eg for e in g[2]])
-    ok2 = bool(en2) and len(adds) >= 4 and not reachable_without(a, adds, [e for g in en2 for e in g[2]])
-    ok3 = ok1 and all(g[0] in a.reach(st[0][0]) for g in en2) and all(must_pass(a, adds, [g[0] for g in en2], src=tg) for g in eg for _, tg in g[2])
-    cx.report('R05.4', a, 'empty-disables', ok1 and ok2 and ok3, 'an empty pattern disables the builder before any sub-builder sees a pattern, and a disabled builder adds nothing' if ok1 and ok2 and ok3 else 'the empty-pattern rule of prefilter::Builder::add deviates (store ok=%s, gate ok=%s, order ok=%s)' % (ok1, ok2, ok3))
-    okall = len(adds) >= 4
-    cx.report('R05.4', a, 'all-subbuilders', okall, 'every pattern is forwarded to the start-byte, rare-byte, memmem and packed builders' if okall else 'only %d sub-builders receive the pattern' % len(adds))
+    BY = cstr(param_at(a, 2))
+    arows = [r for r in summarize(cx.facts, a) if r.end == 'return']
+    SUBS = r'(StartBytesBuilder|RareBytesBuilder|MemmemBuilder|packed::api::Builder)::add$'
+    why = None
+    full = 0
+    for r in arows:
+        emp = r.cond(lambda c: (is_call(canon(c), r'core::slice::is_empty$') and cstr(canon(c)[2][0]) == BY))
+        if emp is None:
+            # `bytes.len() == 0` spelling
+            for c, v in r.conds:
+                cc = canon(c)
+                if cc[0] == 'op' and cc[1] == 'Eq' and {cstr(cc[2]), cstr(cc[3])} == {'0', 'core::slice::len(%s)' % BY}:
+                    emp = v
+        en = r.cond('self.enabled')
+        subs = [canon(c) for c in r.calls(SUBS)]
+        stores = {cstr(p): canon(v) for p, v in r.stores()}
+        if emp is None:
+            why = 'a path does not depend on whether the pattern is empty'
+        elif emp is True:
+            if stores.get('self.enabled') != ('c', 0):
+                why = 'an empty pattern does not disable the builder'
+            elif subs:
+                why = 'an empty pattern is still handed to a sub-builder'
+        else:
+            if 'self.enabled' in stores:
+                why = 'a non-empty pattern changes the enabled flag'
+            if en is False and subs:
+                why = 'a disabled builder still feeds its sub-builders'
+            if en is None:
+                why = 'feeding the sub-builders does not depend on the enabled flag'
+            if en is True:
+                full += 1
+                got = sorted((short(c[1]).rsplit('::', 2)[-2], cstr(c[2][0]), cstr(c[2][1])) for c in subs)
+                need = [('MemmemBuilder', 'self.memmem', BY), ('RareBytesBuilder', 'self.rare_bytes', BY), ('StartBytesBuilder', 'self.start_bytes', BY)]
+                rest = [g for g in got if g not in need]
+                pk = r.cond(lambda c: cstr(c) == 'discr(self.packed)')
+                if [g for g in need if g not in got] or len(got) - len(rest) != 3:
+                    why = 'not every pattern is forwarded to the start-byte, rare-byte and memmem builders exactly once (%s)' % [g[0] for g in got]
+                elif pk == 1 and not (len(rest) == 1 and rest[0][0] == 'Builder' and rest[0][1].startswith('(self.packed as Some)') and rest[0][2] == BY):
+                    why = 'the packed builder does not receive the pattern'
+                elif pk != 1 and rest:
+                    why = 'unexpected sub-builder call %s' % (rest,)
+        if why:
+            break
+    if full == 0:
+        why = why or 'no path feeds the sub-builders'
+    cx.report('R05.4', a, 'empty-disables', why is None, 'an empty pattern disables the builder before any sub-builder sees a pattern, and a disabled builder adds nothing' if why is None else 'prefilter::Builder::add: ' + why)
+    cx.report('R05.4', a, 'all-subbuilders', why is None, 'every pattern is forwarded to the start-byte, rare-byte, memmem and (if present) packed builders' if why is None else 'prefilter::Builder::add: ' + why)
     # MatchKind::as_packed
     ap = cx.body('util::search::MatchKind::as_packed')
     tab = enum_table(cx.facts, [r for r in summarize(cx.facts, ap) if r.end == 'return'], 'util::search::MatchKind', lambda x: peel_all(x) == param_at(ap, 1))
